@@ -15,6 +15,9 @@ AllUnits == {
   U("tiff", "subIfd", 2),        \* one SubIFDs tag with n directory pointers, each to a small directory
   U("tiff", "longArray", 1),     \* multi-valued fields the reader fetches: n LONG strip offsets, n SHORT ISO ratings
   U("tiff", "byteArray", 1),     \* n bytes of UNDEFINED data (maker note, user comment)
+  \* repetition of a structure whose COUNT overstates (the two mechanisms of Fault and Scale together): n iloc / iinf boxes that
+  \* each declare 65535 items and hold none; n CMT1 boxes whose 84 text entries each declare a 4097-byte value
+  U("bmff", "ilocMax", 1), U("bmff", "iinfMax", 1), U("bmff", "cmtAscii4097", 330),
   U("jpeg", "app", 1), U("jpeg", "exifSeg", 8), U("jpeg", "com64k", 4096),
   U("png", "chunk", 1) }
 \* a long token is not repeated; a small record is repeated up to the byte budget
